@@ -27,12 +27,12 @@ pub fn run(ctx: &RunCtx) -> PropResult {
     let mut report = Report::default();
     let p = profile();
     run_profile(ctx, &p, ctx.tier.pick(6000, 100_000), &mut report);
-    if ctx.tier == Tier::Thorough {
-        // long single-key histories: many versions per blob (binary-search insertion path), heavy ties
+    {
+        // long histories over two keys: many versions per blob (binary-search insertion path, lists longer than an index block), heavy ties
         let mut p2 = profile();
         p2.phase = "history-deep";
-        p2.gen = GenParams { nkeys: 2, ts_span: 3, metas: 2, max_ops: 200, w_write: 60, w_delete: 15, w_switch: 6, w_wait: 3, w_reopen: 3, ..Default::default() };
-        run_profile(ctx, &p2, 15_000, &mut report);
+        p2.gen = GenParams { nkeys: 2, ts_span: 3, metas: 2, max_ops: ctx.tier.pick(110, 200) as usize, w_write: 60, w_delete: 15, w_switch: 6, w_wait: 3, w_reopen: 3, ..Default::default() };
+        run_profile(ctx, &p2, ctx.tier.pick(500, 15_000), &mut report);
     }
     PropResult {
         report,
